@@ -33,7 +33,10 @@ MUTATION_WEIGHTS = {
 
 # ops without grid semantics: weight per property
 RAW_WEIGHTS = {
-    "C02": {"rstrip": 3, "optimize_width": 3, "transpose": 2, "set_span": 2, "del_span": 1, "live_row_rep": 4, "live_cell_rep": 4},
+    "C02": {"rstrip": 3, "optimize_width": 3, "transpose": 2, "set_span": 2, "del_span": 1, "live_row_rep": 4, "live_cell_rep": 4,
+            # a row wrapper obtained with clone=False and edited in place; extend_rows fed by an iterable
+            # that fails half-way (caller catches) or that holds the same Row object several times
+            "live_row_op": 5, "extend_rows_odd": 2},
     # C07 quantifies over histories of public Table/Row operations: the
     # repeated-setters on live wrappers (C02's quantifier) are not in it
     # (the repeated-setters on live wrappers are a known C02 finding that leaves the live table stale: kept out of C10)
@@ -540,7 +543,7 @@ class TableEngine:
                 edits.append({"e": "rep", "k": self._rep(rng)})
             for _ in range(rng.randint(0, 3, "nedits")):
                 ek = rng.choice(["set_cell", "set_value", "insert_cell", "append_cell", "delete_cell",
-                                 "set_values", "set_cells", "extend_cells", "rstrip", "read"], "ekind")
+                                 "set_values", "set_cells", "extend_cells", "rstrip", "read", "clear"], "ekind")
                 e = {"e": ek}
                 if ek in ("set_cell", "insert_cell"):
                     e["x"] = rng.randint(0, rw + 2, "ex")
@@ -572,6 +575,15 @@ class TableEngine:
                 op["at"] = y if rng.chance(0.6, "same_y") else self._pick_y(rng, tv)
             if rng.chance(0.3, "noclone"):
                 op["clone"] = False
+            # the row may also come from a whole-table read ("Copies are returned, use set_row() to push
+            # them back"): edited and pushed back where it was read (its repeat count is left alone: the
+            # rows these reads hand out for unrepeated rows are live wrappers, see C08-traverse-live-rows)
+            if y < H and rng.chance(0.3, "via?"):
+                op["via"] = rng.choice(["get_rows", "traverse", "rows"], "via")
+                op["edits"] = [e for e in op["edits"] if e["e"] != "rep"]
+                op["push"] = "set_row"
+                op["at"] = y
+                op.pop("clone", None)
         elif name == "cell_edit":
             op["c"] = self._coord(rng, tv)
             edits = []
@@ -605,6 +617,50 @@ class TableEngine:
                 op["merge"] = True
         elif name == "del_span":
             op["c"] = self._coord(rng, tv, beyond=False) if tv.height else {"x": 0, "y": 0}
+        elif name == "live_row_op":
+            # only rows stored on their own: on a row of a repeated run several Row methods drop or keep the
+            # repeat count of the live element (clear, full-width set_values): that is the known
+            # C02-live-row-repeated-setter finding by another door
+            single = [yy for yy in range(H) if tv.row_run_info(yy)[0] == 1]
+            if not single:
+                return {"op": "read", "kind": "get_values", "y": 0, "x": 0, "obs": self._obs_plan(rng, tv)}
+            y = rng.choice(single, "ly")
+            op["y"] = y
+            rw = len(tv.rows[y]) if y < H else 0
+            edits = []
+            for _ in range(rng.randint(1, 3, "nedits")):
+                ek = rng.choice(["set_cell", "set_value", "insert_cell", "append_cell", "delete_cell",
+                                 "set_values", "set_cells", "extend_cells", "rstrip", "rstrip", "read", "clear"], "ekind")
+                e = {"e": ek}
+                if ek in ("set_cell", "insert_cell"):
+                    e["x"] = rng.randint(0, rw + 1, "ex")
+                    e["cell"] = self._cell(rng)
+                elif ek == "set_value":
+                    e["x"] = rng.randint(0, rw + 1, "ex")
+                    e["v"] = self._val(rng)
+                elif ek == "append_cell":
+                    e["cell"] = self._cell(rng)
+                elif ek == "delete_cell":
+                    e["x"] = rng.randint(0, rw + 1, "ex")
+                elif ek == "set_values":
+                    e["start"] = rng.randint(0, rw + 1, "estart")
+                    e["values"] = [self._val(rng) for _ in range(rng.randint(0, 4, "nv"))]
+                elif ek in ("set_cells", "extend_cells"):
+                    if ek == "set_cells":
+                        e["start"] = rng.randint(0, rw + 1, "estart")
+                    e["cells"] = self._cells(rng, rng.randint(0, 3, "nc"))
+                elif ek == "rstrip":
+                    if rng.chance(0.5, "aggr"):
+                        e["aggressive"] = True
+                elif ek == "read":
+                    e["x"] = rng.randint(0, rw + 1, "ex")
+                edits.append(e)
+            op["edits"] = edits
+        elif name == "extend_rows_odd":
+            op["rows"] = [r for r in (self._row(rng, W) for _ in range(rng.randint(2, 4, "nrows"))) if r is not None] or [{"cells": []}]
+            op["how"] = rng.choice(["fails", "same_object"], "oddhow")
+            if op["how"] == "fails":
+                op["k"] = rng.randint(0, len(op["rows"]), "failat")
         elif name == "live_row_rep":
             op["y"] = self._pick_y(rng, tv, beyond=False) if tv.height else 0
             op["k"] = rng.choice([1, 1, 2, 3, self.cfg["max_rep"]], "k")
